@@ -28,6 +28,15 @@ FORBIDDEN = re.compile(r"\b(Admitted|admit|Axiom|Axioms|Parameter|Parameters|Con
                        r"Unset Guard Checking|bypass_check|Admit Obligations)\b|type-in-type|impredicative-set")
 
 
+EXPLAIN = {
+    "C17": "Partial by nature: (1) theorems: no operation changes the capacity and the specification emits an allocation event only for "
+           "to_vec; (2) what decides the property: under a counting global allocator every returning call of the case space must perform "
+           "exactly the number of allocations the model predicts (0, or 1 for to_vec of a non-empty buffer); (3) the crate is built from "
+           "the working tree with --no-default-features and with only the alloc feature. cfg-conditional compilation and the allocator "
+           "are observed, not modelled.",
+}
+
+
 def known_findings():
     try:
         return json.load(open(os.path.join(E.VERIF, "known_findings.json")))
@@ -102,7 +111,11 @@ def pick(fields, d, elem, phys):
         elif f == "e":
             out.append(tuple(E.events(d.get("e"), elem)))
         elif f == "a":
-            out.append(int(d["a"]) if "a" in d else E.nallocs(d.get("e")))
+            # unwinding allocates the panic payload: allocations are only compared for returning calls
+            if str(d.get("r", "")).startswith("panic"):
+                out.append(0)
+            else:
+                out.append(int(d["a"]) if "a" in d else E.nallocs(d.get("e")))
         elif f == "c":
             out.append(E.norm_elem(d.get("c"), elem))
         else:
@@ -306,6 +319,12 @@ def main():
     if hasattr(plan, "cross_cfg"):
         for (r, fail) in plan.cross_cfg(results):
             r["ofail"].append(fail)
+    extras = plan.extra_obligations(tier, wd) if hasattr(plan, "extra_obligations") else []
+    for (name, ok, detail) in extras:
+        if not ok:
+            path = write_replay(pid, "build", {"property": pid, "kind": "build obligation failed on /repo's working tree",
+                                               "what": name, "log": detail})
+            violations.append((path, False))
     total_evals = sum(r.get("stats", {}).get("evaluations", 0) for r in results)
     total_nt = sum(r.get("stats", {}).get("distinct_nontrivial", 0) for r in results)
     corr_ok = True
@@ -366,11 +385,14 @@ def main():
             violations.append((path, True))
 
     ev = {
-        "property_id": pid, "tier": tier, "seed": seed, "level": "proof",
+        "property_id": pid, "tier": tier, "seed": seed, "level": getattr(plan, "level", "proof"),
         "coverage": {
-            "obligations": len(pinfo["theorems"]) + len(results),
-            "discharged": (len(pinfo["theorems"]) if proofs_ok else 0) +
+            "obligations": len(pinfo["theorems"]) + len(results) + len(extras),
+            "discharged": (len(pinfo["theorems"]) if proofs_ok else 0) + sum(1 for e in extras if e[1]) +
                           sum(1 for r in results if "build_failed" not in r and not r["ofail"] and not r["cfail"]),
+            "explanation": EXPLAIN.get(pid, "machine-checked theorems about the Gallina model (coq/Properties/%s.v) plus the checked "
+                                            "correspondence between the extracted model and /repo's working tree" % pid),
+            "extra_obligations": [{"what": e[0], "ok": e[1]} for e in extras],
             "checker_cmd": "make -C /verif/coq (coqc 8.16.1, full .vo build) && coqc Properties/%s.v with Print Assumptions; then ./check %s %s" % (pid, pid, tier),
             "trusted_base": ["Coq 8.16.1 kernel (no native_compute)", "extraction ExtrOcamlBasic + OCaml 4.13.1 driver",
                              "Rust harness + hooks (--cfg circular_buffer_verif)", "case generators tools/cases.py, tools/props.py",
